@@ -36,7 +36,8 @@ IsFix(kd) == kd.k \in {"f32", "f64"} \/ (kd.k = "null" /\ kd.of = "float")
 Comparable(kd) == kd.k \in {"bool", "int", "uint", "string"}
 
 \* ---- positions ----
-LenPositions == {"L_str", "L_bytes", "L_packed", "L_counted", "L_nested3", "L_map", "L_structslice"}    \* universe U4: length boundaries
+LenPositions == {"L_str", "L_bytes", "L_packed", "L_counted", "L_nested3", "L_map", "L_structslice",
+                 "LN_bytes", "LN_packed", "LN_counted", "LN_map"}    \* universe U4: length boundaries; LN_*: the same one struct down, where the field's Size feeds the parent's length prefix
 Positions == {"top", "field1", "field15", "field16", "field2047", "field2048", "ptrfield", "slice", "slicefield", "sliceptr", "slice2",
               "mapkey", "mapval", "mapptrval", "nested", "slicestruct", "protoslice", "protomapval"} \cup LenPositions
 HasField(p) == p \in {"field1", "field15", "field16", "field2047", "field2048", "ptrfield", "nested", "slicestruct"}
@@ -107,6 +108,10 @@ TypeAt(p, kd) == LET K == RT(kd) IN
     [] p = "L_nested3" -> St(<<Fld(1, "", St(<<Fld(1, "", St(<<Fld(1, "", StrT)>>)), FldN("Y", 2, "", IntT)>>)), FldN("Y", 2, "", IntT)>>)
     [] p = "L_map" -> St(<<Fld(1, "", [k |-> "map", key |-> [k |-> "uint", w |-> 16], val |-> [k |-> "bool"]]), FldN("Y", 2, "", IntT)>>)
     [] p = "L_structslice" -> [k |-> "slice", e |-> St(<<Fld(1, "", StrT), FldN("Y", 2, "", IntT)>>)]
+    [] p = "LN_bytes" -> St(<<Fld(1, "", St(<<Fld(1, "", [k |-> "bytes"]), FldN("Y", 2, "", IntT)>>)), FldN("Y", 2, "", IntT)>>)
+    [] p = "LN_packed" -> St(<<Fld(1, "", St(<<Fld(1, "", [k |-> "slice", e |-> [k |-> "uint", w |-> 16]]), FldN("Y", 2, "", IntT)>>)), FldN("Y", 2, "", IntT)>>)
+    [] p = "LN_counted" -> St(<<Fld(1, "", St(<<Fld(1, "", [k |-> "slice", e |-> StrT]), FldN("Y", 2, "", IntT)>>)), FldN("Y", 2, "", IntT)>>)
+    [] p = "LN_map" -> St(<<Fld(1, "", St(<<Fld(1, "", [k |-> "map", key |-> [k |-> "uint", w |-> 16], val |-> [k |-> "bool"]]), FldN("Y", 2, "", IntT)>>)), FldN("Y", 2, "", IntT)>>)
     [] p = "field2048" -> St(<<Fld(2048, kd.opt, K)>>)
     [] p = "ptrfield" -> St(<<Fld(1, kd.opt, [k |-> "ptr", e |-> K])>>)
     [] p = "slice" -> [k |-> "slice", e |-> K]
@@ -136,6 +141,10 @@ ValAt(p, n, a, b) ==
     [] p = "L_nested3" -> << << <<Rep(n, 120)>>, Seven >>, Seven >>
     [] p = "L_map" -> <<Mp(n, [i \in 1..n |-> <<S(FALSE, NatLimbs(i)), TRUE>>]), Seven>>
     [] p = "L_structslice" -> Sl(1, << <<Rep(n, 120), Seven>>, <<Rep(n, 120), ZeroInt>> >>)
+    [] p = "LN_bytes" -> << <<[nil |-> FALSE, b |-> Rep(n, 9)], Seven>>, Seven >>
+    [] p = "LN_packed" -> << <<Sl(n, Rep(n, S(FALSE, <<1>>))), Seven>>, Seven >>
+    [] p = "LN_counted" -> << <<Sl(n, Rep(n, <<97>>)), Seven>>, Seven >>
+    [] p = "LN_map" -> << <<Mp(n, [i \in 1..n |-> <<S(FALSE, NatLimbs(i)), TRUE>>]), Seven>>, Seven >>
     [] p = "ptrfield" -> IF n = -1 THEN <<[nil |-> TRUE, v |-> <<>>]>> ELSE <<Pt(a)>>
     [] p = "slice" -> Sl(n, Elems(n, a, b))
     [] p = "slicefield" -> <<Sl(n, Elems(n, a, b)), Seven>>
@@ -176,7 +185,7 @@ Walkable == Done /\ Resolve(T).k = "struct" => Frames(Encode(G, T, V)).ok
 MatcherSound == Done => EncMatches(G, T, V, Encode(G, T, V))
 \* C12 in the model: in the fully proto-compatible mode only wire types 0,1,2,5 occur at the top level of a struct
 \* (nested levels are checked by MCProto)
-ProtoTop == Done /\ c.cfg = "both" /\ c.pos \notin {"slicefield", "mapkey", "mapval", "mapptrval", "L_map"} /\ Resolve(T).k = "struct"
+ProtoTop == Done /\ c.cfg = "both" /\ c.pos \notin {"slicefield", "mapkey", "mapval", "mapptrval", "L_map", "LN_map"} /\ Resolve(T).k = "struct"
             => ProtoFrames(Encode(G, T, V)).ok
 \* normalisation is idempotent
 NormIdem == Done => Eq(T, Norm(G, T, Norm(G, T, V, TRUE), TRUE), Norm(G, T, V, TRUE))
